@@ -1802,6 +1802,29 @@ func (e *Engine) builtin(fr *frame, b *ssa.Builtin, c *ssa.CallCommon, args []va
 		return e.snapshot(&bytesV{arr: sp.b.arr, off: sp.b.off, n: n, cap: sp.b.cap})
 	case "print", "println":
 		return nil
+	case "clear":
+		switch x := args[0].(type) {
+		case *mapV:
+			if x != nil {
+				e.hbAccess(x, true, "")
+				for len(x.dead) < len(x.keys) {
+					x.dead = append(x.dead, false)
+				}
+				for i := range x.dead {
+					x.dead[i] = true
+				}
+			}
+		case *sliceV:
+			for i := 0; i < x.len; i++ {
+				(*x.arr)[x.off+i] = zero(c.Args[0].Type().Underlying().(*types.Slice).Elem())
+			}
+		case *bytesV:
+			n := e.concretize(x.n, 0, x.cap)
+			for i := 0; i < n; i++ {
+				x.arr.b[x.off+i] = BV(8, 0)
+			}
+		}
+		return nil
 	case "recover":
 		// a run-time panic ends the path (as a finding) before any deferred call
 		// runs, so a deferred recover() never observes one
